@@ -24,11 +24,20 @@ prefactors removed
 * `rmtv_jump_compressive` : for a supersonic upstream state in the isothermal sense,
   (1 - U₂)² > T₂ > 0, H₂ > 0, the density rises: H₁ > H₂ (C17 share).
 
+* FINDING `finding_rmtv_xis_ignored` : the parameter `xis` ('dimensionless position of the shock
+  front') does not position the shock.  `rmtv_1d` applies the jump where `rpos <= rs` with
+  `rs = zeta * 1.0 * abs(time)**alpha` — the literal 1.0 stands where Timmes' Fortran has `xis` — so
+  the traced switch condition (c2 of RmtvRun) does not depend on `xis`, while the end of the
+  pre-shock integration (`max(xis, xiwant)`, condition c1) does.  For xis ≠ 1 the returned fields
+  jump at ξ = 1, not at ξ = xis (oracle `rmtv_xis`), and between the two they are the jump of the
+  un-shocked solution, not a solution.  (Default xis = 1: no effect.)
+
 Partial: the shock position ξ_s and the integrations are atoms; the statement is about the
 similarity variables handed from the pre-shock to the post-shock integration, which
 `rmtv_1d` dimensionalises with the same positive prefactors on both sides (RmtvRun).
 -/
 import EPV.Gen.RmtvJump
+import EPV.Gen.RmtvRun
 import EPV.Tactics
 
 set_option linter.all false
@@ -69,12 +78,37 @@ theorem rmtv_jump_energy (γ : ℝ) (p : RmtvJump.P) (hU : 1 - p.U2 ≠ 0) (hT :
   field_simp
   ring
 
+/-- **C02, RMTV isothermal shock (partial: ξ_s and the integrations are atoms; statement in the
+similarity variables that `rmtv_1d` dimensionalises with common prefactors on both sides).** -/
+theorem rmtv_isothermal_shock_partial (γ : ℝ) (p : RmtvJump.P) (hU : 1 - p.U2 ≠ 0) (hT : p.T2 ≠ 0) (hg : γ - 1 ≠ 0) :
+    rmtvMassFlux (RmtvJump.H1 p) (RmtvJump.U1 p) = rmtvMassFlux p.H2 p.U2
+    ∧ rmtvMomFlux (RmtvJump.H1 p) (RmtvJump.U1 p) (RmtvJump.T1 p) = rmtvMomFlux p.H2 p.U2 p.T2
+    ∧ RmtvJump.T1 p = p.T2
+    ∧ rmtvEnergyFlux γ (RmtvJump.H1 p) (RmtvJump.U1 p) (RmtvJump.T1 p) (RmtvJump.W1 p)
+        = rmtvEnergyFlux γ p.H2 p.U2 p.T2 p.W2 :=
+  ⟨rmtv_jump_mass p hU hT, rmtv_jump_momentum p hU hT, rmtv_jump_isothermal p, rmtv_jump_energy γ p hU hT hg⟩
+
 /-- the isothermal shock is compressive when the upstream flow is isothermally supersonic -/
 theorem rmtv_jump_compressive (p : RmtvJump.P) (hT : 0 < p.T2) (hM : p.T2 < (1 - p.U2) ^ 2) (hH : 0 < p.H2) :
     p.H2 < RmtvJump.H1 p := by
   simp only [epv_tree, epv_leaf]
   have h1 : 1 < (1 - p.U2) ^ 2 / p.T2 := by rw [lt_div_iff₀ hT]; linarith
   nlinarith
+
+/-- **Finding.**  Where `rmtv_1d` switches to the shocked branch does not depend on `xis`;
+where it stops the pre-shock integration does. -/
+theorem finding_rmtv_xis_ignored :
+    (∀ (p : RmtvRun.P) (y : ℝ), RmtvRun.c2 { p with xis := y } ↔ RmtvRun.c2 p)
+    ∧ ∃ (p : RmtvRun.P) (y : ℝ), ¬ (RmtvRun.c1 { p with xis := y } ↔ RmtvRun.c1 p) := by
+  constructor
+  · intro p y
+    simp only [epv_cond]
+  · -- c1 is `xis < xiwant`; with every scale set to 1 the coordinate is xiwant = rpos / 3^(-1/3) … any value
+    -- strictly between two choices of xis separates them.  Parameters: a = 0, b = 1, so alpha = 3/5.
+    refine ⟨{ H := 1, H2 := 1, T := 1, T2 := 1, U := 0, U2 := 0, ans := 0, aval_in := 0, beta0_in := 2, bigamma := 1,
+              bval_in := 1, chi0 := 1, g0 := 1, gamma := 5 / 4, rf := 1, rpos := 0, xif_in := 1, xis := -1 }, 1, ?_⟩
+    simp only [epv_cond]
+    norm_num
 
 /-- non-vacuity -/
 example : ∃ p : RmtvJump.P, 1 - p.U2 ≠ 0 ∧ 0 < p.T2 ∧ p.T2 < (1 - p.U2) ^ 2 ∧ 0 < p.H2 :=
